@@ -136,7 +136,10 @@ class Sim {
   const std::map<uint64_t, std::string>& everInodes() const {
     return ever_;
   }
-  // generation counter of a path (incremented on each creation)
+  // xattrs each cgroup directory was created with, by inode
+  const std::map<uint64_t, std::map<std::string, std::string>>& initialXattrs() const {
+    return everX_;
+  }
   // kernel model -----------------------------------------------------------
   int onKill(pid_t pid, int sig); // 0 or errno
   long onWrite(const std::string& abspath, const std::string& data);
@@ -164,6 +167,7 @@ class Sim {
   std::string scratch_, cgroot_;
   World w_;
   std::map<uint64_t, std::string> ever_;
+  std::map<uint64_t, std::map<std::string, std::string>> everX_;
   std::map<int, int> pidfds_; // fake pidfd -> pid
 };
 
